@@ -5,6 +5,8 @@ CONSTANTS Kind = "channel"
           Credits = {1}
           MaxGrants = 1
           HasPub = TRUE
+          Slot = 0
+          SidOff = 0
           LibSource = TRUE
 INVARIANT NoClauseFails
 INVARIANT DeliveredIsPrefixOfHanded
